@@ -37,7 +37,7 @@ PROPS = {
                 "entry points of the 4 decoder families, the 13 IP-level entry points and the io::Read doors (IpHeaders::read, "
                 "Ipv6Extensions/Ipv4Extensions::read_limited over a LimitedReader with a random base offset); every Err / lax stop error is "
                 "compared field by field with the set of truthful reports of the reference decoder; distinct = distinct "
-                "(entry point, error class, stop layer, faulty layer kind, fault behind offset 0) signatures",
+                "(entry point, error class, stop layer, faulty layer kind, fault behind offset 0) signatures; engine single: 36 single-layer decoders (header structs and slice types) judged the same way; engine convert: errors of 13 slice and 8 reader entry points keep their message, innermost source and typed accessor when converted into FromSliceError / ReadError",
         "assumptions": COMMON_ASSUME + [
             "reference decoder R and its truthful-report sets (DESIGN appendix A)",
             "reporting LenSource::Slice is always accepted (the statement only constrains other sources)",
@@ -49,6 +49,7 @@ PROPS = {
             "cell.UdpHeader.UdpLen": 10,
             "entry.IpHeaders::read": 100000, "entry.Ipv6Extensions::read_limited": 100000, "entry.Ipv4Extensions::read_limited": 100000,
             "readers.staged_minimum": 100,
+            "api.c07.conversions_preserve_message": 100000, "api.c07.read_conversions_preserve_message": 100000, "entry.UdpHeader::from_slice": 10000, "entry.TcpSlice::from_slice": 10000,
         },
     },
     "C05": {
@@ -78,7 +79,7 @@ PROPS = {
                 "ether types) decoded by PacketHeaders and SlicedPacket (and LaxPacketHeaders / LaxSlicedPacket) from the same bytes; "
                 "headers, stop errors, verdict and remaining payload range compared; where the reference decoder's struct-mode and "
                 "slice-mode walks of the extension chain differ the struct result is judged against the struct-mode walk (computed "
-                "permitted difference); distinct = distinct (entry point, layer sequence, outcome, payload kind)",
+                "permitted difference); distinct = distinct (entry point, layer sequence, outcome, payload kind); engine api: the variant accessors of LinkHeader / NetHeaders / TransportHeader / NetSlice answer exactly for the variant decoded",
         "assumptions": COMMON_ASSUME + [
             "the conversion image of a slicing result (observe::whole::to_header_image) mirrors what to_header() keeps: all "
             "decoded field values, none of the byte offsets",
@@ -89,6 +90,7 @@ PROPS = {
             "corpus_cases": 100000, "same": 10000, "same.udp": 500, "same.tcp": 500, "same.icmpv4": 200, "same.icmpv6": 200, "same.ip": 500,
             "same.ether": 500, "same.macsec_mod": 100, "same.empty": 100, "both_reject": 1000, "same_stop": 1000,
             "permitted_difference_ok": 500,
+            "api.c04.net_slice_accessors": 10000, "api.c04.transport_accessors": 10000,
         },
     },
     "C06": {
@@ -98,7 +100,7 @@ PROPS = {
                 "(b) from_ethernet vs from_ether_type on the bytes behind the Ethernet II header (offsets +14) and (c) from_ether_type"
                 "(IPv4/IPv6) vs from_ip in all 4 decoder families, (d) read() from a Cursor vs from_slice() for 24 reader entry points "
                 "of 17 header types incl. cursor position; errors compared after projecting sibling layer names; equality demanded only "
-                "for single-fault inputs; distinct = distinct (rule, entry point, outcome signature)",
+                "for single-fault inputs; distinct = distinct (rule, entry point, outcome signature); engine api: the deprecated read_from_slice doors (6 header types) and Ethernet2Header::from_bytes equal from_slice, value and rest",
         "assumptions": COMMON_ASSUME + [
             "a too short slice corresponds to io::ErrorKind::UnexpectedEof of a reader",
             "rules that depend on the total slice length (ICMPv4 timestamp exact size, IP total length vs slice) are excluded when only the slice decoder can know them",
@@ -110,6 +112,7 @@ PROPS = {
             "ether_type_vs_ip.same_error": 1000, "ip_siblings.same": 10000, "ip_siblings.same_error": 1000,
             "read_vs_slice.same_value": 10000, "read_vs_slice.rejection.Len": 1000, "read_vs_slice.rejection.Content": 500,
             "entry.*::read": 24000,
+            "api.c06.alias_same_error": 100000, "api.c06.alias_same_value": 100000,
         },
     },
     "C01": {
@@ -197,7 +200,7 @@ PROPS = {
                 "first header drawn from {0,43,44,51,60,17,59,255} = 3 831 624 configurations, plus random links, set_next_headers(n) "
                 "for all 251 non-extension n x all presence combinations, IPv4 auth chains and the IpHeaders/NetHeaders wrappers; "
                 "oracle = independent walk of the struct + independent parser of the written bytes; distinct = distinct (engine, "
-                "presence combination, walk outcome) signatures",
+                "presence combination, walk outcome) signatures; every chain is also walked and written through the IpHeaders wrapper (must agree with the extension walk started at the base header's field); engine api: which protocol numbers are extension headers (IANA list), Ipv6RoutingExtensions::header_len",
         "assumptions": COMMON_ASSUME + ["the reference walk in harness/src/monitors/c12.rs states RFC 8200 order and the struct's documented layout"],
         "coverage_extra": {"exhaustive_subdomains": {"ipv6 presence x links over S": 3831624}},
         "runs": {"quick": [dict(CHK), {"flavour": "rel", "scale": 0.25}], "thorough": [dict(CHK), {"flavour": "rel", "scale": 0.5}]},
@@ -205,6 +208,7 @@ PROPS = {
             "exhaustive.configurations": 3831624, "consistent_chains": 10000, "decoded_same": 5000, "hbh_not_at_start": 1000,
             "inconsistent_chains_rejected": 100000, "set_next_headers_ok": 40000, "ipv4.chains": 5000, "wrappers.write_ok": 10000,
             "wrappers.net_headers_ok": 5000,
+            "wrappers.ipv4_walk_and_write_agree": 1000, "wrappers.ipv6_walk_and_write_agree": 100000, "api.ok": 100000,
         },
     },
     "C13": {
@@ -214,7 +218,7 @@ PROPS = {
                 "option areas (EXHAUSTIVE: all byte strings of length 0..3 and every (kind, length octet, octets left) triple; grammar "
                 "generated, random, mutated encodings) through TcpOptionsIterator / try_from_slice / set_options_raw / header slices; oracle = "
                 "independent RFC 9293/2018/7323 encoder + parser (refmodel/tcpopts.rs); rest() before/after every item, error fields, "
-                "exhaustion, step budget; distinct = distinct (engine, item kind sequence, outcome) signatures",
+                "exhaustion, step budget; distinct = distinct (engine, item kind sequence, outcome) signatures; engine api: the trait doors of TcpOptions (TryFrom<&[u8]>, Deref, AsRef/AsMut, Eq/Ord/Hash over the live bytes only, as_mut_slice) and the deprecated TcpHeader accessors",
         "assumptions": COMMON_ASSUME + [
             "a SACK element with gaps in its block array ([None, Some, None]) is compacted on the wire (the format cannot express the gap): the compacted element is demanded",
             "where several rules are broken at once every truthful error description is accepted",
@@ -229,6 +233,7 @@ PROPS = {
             "elem.decoded.sack4": 80000, "err.UnexpectedEndOfSlice": 400000, "err.UnexpectedSize": 1500000, "err.UnknownId": 20000000,
             "areas.fully_tiled_nonempty": 250000, "areas.fault_behind_valid_items": 1000000, "raw_set.rejected_over_40": 10000,
             "header_slice_paths.agree": 6000000,
+            "api.ok": 100000,
         },
     },
     "C14": {
@@ -239,14 +244,16 @@ PROPS = {
                 "IpAuthHeader::new/set_raw_icv, Ipv6RawExtHeader::new_raw/set_payload, Ipv4Options, TcpHeader::set_options_raw, "
                 "ArpPacket::new/set_hw_addrs/set_protocol_addrs, PacketBuilder payloads for every transport x IP version); probes {0,1,limit-4..limit+4, alignment neighbours, 2^16+-2, 2^32+-2, "
                 "usize::MAX}; the true limit of each row is derived from the wire field width in the monitor; huge payloads are NORESERVE "
-                "zero mappings (accept side of the 2^32 limits in thorough only); distinct = distinct (API, below/at/above limit class)",
+                "zero mappings (accept side of the 2^32 limits in thorough only); distinct = distinct (API, below/at/above limit class); accepted IPv6 upper-layer lengths >= 2^16 must be encoded exactly: checksum through six TCP doors and ICMPv6 compared with the reference that uses the 32 bit length",
         "assumptions": COMMON_ASSUME + ["huge payloads are read-only zero mappings: their content is irrelevant for the limit rules"],
         "runs": {"quick": [dict(CHK, shards=8)], "thorough": [dict(CHK, shards=8)]},
         "mandatory": {"accepted.*": 10000, "rejected.*": 10000, "macsec.unknown_fallback": 100, "macsec.encoded_exactly": 100,
                       "rejected.IpHeaders::set_payload_len(ipv4+auth)": 100, "rejected.Icmpv6Type::calc_checksum": 10,
                       "rejected.TcpHeader::calc_checksum_ipv6": 10, "rejected.UdpHeader::calc_checksum_ipv6_raw": 10,
                       "rejected.PacketBuilder(udp/ipv6)": 200, "rejected.PacketBuilder(udp/ipv4)": 200, "rejected.PacketBuilder(tcp/ipv6)": 200,
-                      "accepted.PacketBuilder(udp/ipv6)": 100, "accepted.PacketBuilder(raw/ipv4)": 20},
+                      "accepted.PacketBuilder(udp/ipv6)": 100, "accepted.PacketBuilder(raw/ipv4)": 20,
+            "pseudo6_exact.TcpSlice::calc_checksum_ipv6": 8, "pseudo6_exact.Icmpv6Type::calc_checksum": 8,
+        },
         "min_distinct": {"accepted.*": 36, "rejected.*": 36},
     },
     "C15": {
@@ -256,7 +263,7 @@ PROPS = {
                 "flags/fragment offset, IPv6 fragment offset, MACsec TCI/SL, all 256 IPv4 TOS / IGMPv3 octet-8 values, all 2^20 flow labels; "
                 "encode side: every value of each field against all-zeros/all-ones/random neighbours, diff against a baseline header must stay "
                 "inside the field's mask; oracle = independent mask table from IEEE 802.1Q/802.1AE, RFC 791/2474/3168/8200/3376; distinct = "
-                "distinct (type, accepted/rejected class) / (header, field) signatures",
+                "distinct (type, accepted/rejected class) / (header, field) signatures; engine api: TryFrom / From / Display of all nine bounded types over their complete raw domain, MacsecShortLen::from_len, the named DSCP code points (IpDscpKnown) against the RFC values",
         "assumptions": COMMON_ASSUME + ["acceptance decisions of decoders (MACsec version bit, IHL, ...) are counted, not judged here (C03)"],
         "coverage_extra": {"exhaustive_subdomains": {"Ipv6FlowLabel raw u32": 4294967296, "VlanId raw u16": 65536, "IpFragOffset raw u16": 65536}},
         "runs": {"quick": [dict(CHK)], "thorough": [dict(CHK)]},
@@ -270,6 +277,7 @@ PROPS = {
             "exhaustive.enc.Ipv6Header.flow_label": 1048576, "exhaustive.enc.Ipv4Header.fragment_offset": 8192,
             "exhaustive.enc.SingleVlanHeader.vlan_id": 4096, "exhaustive.enc.MacsecHeader.short_len": 64,
             "exhaustive.enc.IgmpMembershipQueryWithSources.qrv": 8, "igmp_setters.ok": 68096, "ipv6_tc_setters.ok": 17408,
+            "api.c15.sweeps": 16,
         },
     },
     "C09": {
@@ -306,7 +314,7 @@ PROPS = {
                 "injected: a writer failing at byte k for all k in 0..=n+1 in two modes (partial chunk accepted / chunk rejected), an output "
                 "slice of every length 0..=n+1 ending at a PROT_NONE page with canaries in front, a reader failing at byte k for all k up "
                 "to the bytes the decoder needs, a LimitedReader limit for all 0..=n+2 over a counting reader; evaluations = injected "
-                "faults judged; distinct = distinct (kind, type, encoded length) signatures",
+                "faults judged; distinct = distinct (kind, type, encoded length) signatures; engine skip: Ipv6Header::skip_header_extension / skip_all_header_extensions over seekable sources that end or fail at every position of the chain (fault surfaced iff a skipped header is not completely readable; cursor position on success)",
         "assumptions": COMMON_ASSUME + [
             "the complete encoding a partial write must be a prefix of is what the same value writes into a Vec (byte-level correctness of encodings is C08's job)",
         ],
@@ -318,6 +326,7 @@ PROPS = {
             "builder.fault_surfaced": 1000000, "builder.slices.space_error": 500000, "builder.configs": 10000,
             "writers.multi_part_fault.IpHeaders": 10000, "writers.multi_part_fault.Ipv6Extensions": 10000,
             "writers.multi_part_fault.Ipv4Header": 10000, "writers.multi_part_fault.TcpHeader": 10000,
+            "skip.all_fault_surfaced": 10000, "skip.step_fault_surfaced": 10000, "skip.all_ok": 10000,
         },
         "min_distinct": {"writers.values.*": 20, "readers.values.*": 24},
     },
@@ -348,7 +357,7 @@ PROPS = {
                 "length units) pairs x area lengths, all 256 IGMP types x lengths 0..40, all (hlen, plen) ARP pairs; plus random / grammar "
                 "generated ICMP bodies, NDP option lists, IGMPv3 queries/reports with group records, Ethernet/IPv4-shaped ARP packets; oracle = "
                 "independent RFC 792/4443/4861/1112/2236/3376/9776/826 decoder (refmodel/ctrl.rs): kind, fields, fixed/variable split, option "
-                "tiling, rejection rule, unknown fallback; distinct = distinct (family, kind, outcome) signatures",
+                "tiling, rejection rule, unknown fallback; distinct = distinct (family, kind, outcome) signatures; engine api: ICMPv4 / ICMPv6 code helpers over all 256 codes against the assigned ranges and against the decoder, TimestampMessage::from_bytes, Icmpv6Type::payload_from_slice and the owned NDP payload structs (RFC 4861 fixed-part lengths, write = to_bytes = the decoded bytes), igmp::GroupAddress",
         "assumptions": COMMON_ASSUME + [
             "assigned but untyped ICMP types/codes are expected as Unknown/Raw, typed ones as the crate's documentation tables claim",
             "LenError layer / len_source are C07's job; only required_len and len are compared here",
@@ -362,6 +371,7 @@ PROPS = {
             "icmp4.unknown_fallback": 3000000, "icmp6.unknown_fallback": 5000000, "ndp.errors_seen": 2000000, "ndp.area_clean": 1200000,
             "igmp.group_records": 1000000, "arp.eth_ipv4.ok": 600000, "icmp4.rejected.icmp4.timestamp_short": 40000,
             "ndp.reject.ZeroLength": 180000, "ndp.reject.WrongFixedSize": 180000, "igmp.rejected.igmp.query_9_to_11": 40000,
+            "api.c17.owned_payloads": 1000, "api.ok": 100000,
         },
     },
     "C08": {
@@ -373,7 +383,7 @@ PROPS = {
                 "chains compared at value level), decode(encode(v)) = v with empty remainder, read(encode(v)) = v; value direction: directly "
                 "constructed values of 16 types over extremes, all option / ICV / address lengths, every typed ICMPv4/ICMPv6 variant, "
                 "consistent IpHeaders sets; grow-then-shrink setter sequences compared with freshly constructed values; distinct = distinct "
-                "(direction, type, encoded length) signatures",
+                "(direction, type, encoded length) signatures; a third door for the byte direction: 21 slice types converted with to_header(); engine api: ArpEthIpv4Packet <-> ArpPacket views against the RFC 826 layout, Ipv4Options array conversions, NdpOptionHeader",
         "assumptions": COMMON_ASSUME + [
             "Ipv4Header::write / IpHeaders::write deliberately recompute the header checksum (documented): compared through write_raw / with inputs that carry a correct checksum",
             "reference encoders are replaced by the reserved-bit mask comparison against accepted input bytes; IGMP, group records and PrefixInformation round trips are covered by C17/C09",
@@ -383,6 +393,7 @@ PROPS = {
             "bytes.round_trips": 1000000, "bytes.reencoded_identical_under_mask": 800000, "bytes.two_serialisers_agree": 1000000,
             "values.round_trips": 800000, "setters.ok": 1000000, "values.type.Icmpv4Header(timestamp)": 5000,
             "bytes.accepted_by_read": 100000, "bytes.accepted_by_from_slice": 100000,
+            "api.c08.arp_views": 10000, "bytes.door.TcpSlice::to_header": 1000, "bytes.door.MacsecHeaderSlice::to_header": 1000,
         },
         "min_distinct": {"bytes.type.*": 24, "values.type.*": 16},
     },
